@@ -20,6 +20,65 @@ Theorem C08_safety : forall c ops sch, let s := run c sch (init ops) in
   dones l ++ dq s = map fst (committed l).
 Proof. exact safety. Qed.
 
+(* SAFETY UNDER STORE FAULTS - every variant, every configuration, every fault script (FaultModel.fstep = Model.step plus
+   the choices "the store's batch Commit returns an error" at a non-empty commit and "store.Batched() returns an
+   error"; behaviour after the error transcribed from the code: panic in the writer goroutine, no recover, the process
+   terminates).  The state in which the fault strikes is reachable without faults (so every theorem above applies up to
+   there); the whole log, refused call and panic included, is accepted by the writer protocol with faults (fck_run:
+   BatchWriteDone(o) only as next due call of the last SUCCESSFUL commit; a refused commit makes no BatchWriteDone due
+   and nothing but the panic follows it); the store holds the successfully committed mutations only; every
+   BatchWriteDone(o) in the log is preceded by a successful EvCommit b with o in b; at a refused commit the refused
+   batch is the open batch b, nothing is due, dones = objects of the successful commits, writes = committed ++ b; and a
+   fault is terminal. *)
+Theorem C08_safety_faults : forall c ops fsch, let fs := frun c fsch (finit ops) in
+  let s := f_st fs in
+  let l := rev (log s) in
+  reach c ops s /\
+  fck_run fck0 (flog fs) = Some (mkfck (mkck (batch s) (dq s) (store s)) (phase_of (f_crash fs))) /\
+  (forall o, store s o = last_w (committed l) o) /\
+  writes l = committed l ++ batch s /\
+  dones l ++ dq s = map fst (committed l) /\
+  (forall L1 o L2, l = L1 ++ EvDone o :: L2 -> exists L0 b L0', L1 = L0 ++ EvCommit b :: L0' /\ In o (map fst b)) /\
+  match f_crash fs with
+  | None => True
+  | Some (CrCommit b) => b = batch s /\ b <> [] /\ dq s = [] /\ dones l = map fst (committed l) /\
+                         writes l = committed l ++ b
+  | Some CrBatched => batch s = [] /\ dq s = [] /\ writes l = committed l /\ dones l = map fst (committed l)
+  end /\
+  (f_crash fs <> None -> forall fsch', frun c fsch' fs = fs).
+Proof. exact safety_faults. Qed.
+
+(* an object of the refused batch has had more BatchWrite than BatchWriteDone calls: its last collection is never
+   reported as persisted *)
+Theorem C08_fault_refused_not_done : forall c ops fsch b o, let fs := frun c fsch (finit ops) in
+  let l := rev (log (f_st fs)) in
+  f_crash fs = Some (CrCommit b) -> In o (map fst b) ->
+  count_o o (dones l) < count_o o (map fst (writes l)).
+Proof. exact refused_not_done. Qed.
+
+(* non-vacuity: queue 2, batch 1; the first commit succeeds (BatchWriteDone(0)), the second is refused: object 1 is
+   written but never Done, the store does not hold it, the Stop call scheduled afterwards never runs *)
+Example C08_safety_faults_nonvacuous :
+  f_crash fs_fault = Some (CrCommit [(1, 2)]) /\ store (f_st fs_fault) 0 = Some 1 /\ store (f_st fs_fault) 1 = None /\
+  flog fs_fault = [FE (EvSet 0 0 1); FE (EvRet 0 RAcc); FE (EvSet 1 1 2); FE (EvRet 1 RAcc); FE EvBatched; FE (EvReset 0);
+                   FE (EvWrite 0 1); FE (EvCommit [(0, 1)]); FE (EvDone 0); FE EvBatched; FE (EvReset 1); FE (EvWrite 1 2);
+                   FCommitFail [(1, 2)]; FPanic] /\
+  thr (f_st fs_fault) = [(OEnq 0 1, PRet RAcc); (OEnq 1 2, PRet RAcc); (OStop, PIdle)].
+Proof. exact fault_witness. Qed.
+
+(* THE BATCH TIMER is a free scheduler choice of the model: the time-out branch of the collect select is enabled in every
+   state (so every real timer behaviour - fires at once for a batch time-out <= 0, fires late, never fires within the
+   run - is one of the schedules quantified over), and for an idle writer (nothing queued, no flush requested) it is
+   the only step the writer goroutine can take: the writer returns to its loop condition, and so lets a waiting
+   StopBatchWriter return, only through the timer.  (C08_can_finish uses exactly this step.) *)
+Theorem C08_timeout_always_enabled : forall c s, wp s = WSelect MCollect ->
+  writer_step c s CTimeout = Some (set_wp s (WCommit KHead)).
+Proof. exact timeout_always_enabled. Qed.
+
+Theorem C08_idle_writer_only_timeout : forall c s ch s', wp s = WSelect MCollect -> queue s = [] -> token s = false ->
+  writer_step c s ch = Some s' -> ch = CTimeout /\ s' = set_wp s (WCommit KHead).
+Proof. exact idle_writer_only_timeout. Qed.
+
 (* COMPLETENESS (repaired code), life-cycle level: a Stop call that is invoked in a state where the writer goroutine
    exists and that has returned: the writer has terminated, nothing is queued, no Enqueue call is past its running
    check, every BatchWrite is committed and every committed object has had its BatchWriteDone, Wait is open. *)
@@ -206,6 +265,10 @@ Example C08_sender_nonvacuous :
 Proof. vm_compute. repeat split; reflexivity. Qed.
 
 Print Assumptions C08_safety.
+Print Assumptions C08_safety_faults.
+Print Assumptions C08_fault_refused_not_done.
+Print Assumptions C08_timeout_always_enabled.
+Print Assumptions C08_idle_writer_only_timeout.
 Print Assumptions C08_complete_partial.
 Print Assumptions C08_complete.
 Print Assumptions C08_complete_written.
